@@ -8,6 +8,7 @@ import (
 	"context"
 	"fmt"
 	"testing"
+	"time"
 
 	asset "github.com/buchgr/bazel-remote/v2/genproto/build/bazel/remote/asset/v1"
 	pb "github.com/buchgr/bazel-remote/v2/genproto/build/bazel/remote/execution/v2"
@@ -44,10 +45,16 @@ func TestVerifHandlersNil(t *testing.T) {
 	defer f.Close()
 	s := &grpcServer{cache: f.cache, accessLogger: vSilent, errorLogger: vSilent, depsCheck: true, maxCasBlobSizeBytes: 1 << 30}
 	ctx := context.Background()
+	hung := false
 	call := func(name string, detail string, fn func() error) {
 		rec.Case()
 		res := "ok"
-		func() {
+		if hung {
+			return // a previous call never returned (e.g. it died holding a lock): stop here
+		}
+		done := make(chan struct{})
+		go func() {
+			defer close(done)
 			defer func() {
 				if r := recover(); r != nil {
 					res = "panic"
@@ -58,6 +65,13 @@ func TestVerifHandlersNil(t *testing.T) {
 				res = "err"
 			}
 		}()
+		select {
+		case <-done:
+		case <-time.After(10 * time.Second):
+			hung = true
+			res = "hang"
+			rec.Violation("C14", "handler.hang."+name, fmt.Sprintf("%s did not return within 10 s (%s)", name, detail), map[string]string{"handler": name, "input": detail})
+		}
 		rec.Note(fmt.Sprintf("%s %s -> %s", name, detail, res))
 		rec.Count(name + "." + res)
 		rec.Distinct(name + ":" + detail)
@@ -172,7 +186,9 @@ func TestVerifHandlersNil(t *testing.T) {
 		return key
 	}
 	_ = put
-	for name, tree := range map[string]*pb.Tree{"nil-root": {}, "nil-file-digest": {Root: &pb.Directory{Files: []*pb.FileNode{{Name: "x"}}}}, "child-nil-files": {Root: &pb.Directory{}, Children: []*pb.Directory{{}}}} {
+	for name, tree := range map[string]*pb.Tree{"nil-root": {}, "nil-file-digest": {Root: &pb.Directory{Files: []*pb.FileNode{{Name: "x"}}}}, "child-nil-files": {Root: &pb.Directory{}, Children: []*pb.Directory{{}}},
+		"child-file-nil-digest": {Root: &pb.Directory{}, Children: []*pb.Directory{{Files: []*pb.FileNode{{Name: "y"}}}}},
+		"child-file-and-root-nil-digest": {Root: &pb.Directory{Files: []*pb.FileNode{{Name: "x"}, {Name: "z", Digest: good}}}, Children: []*pb.Directory{{Files: []*pb.FileNode{{Name: "y", Digest: good}, {Name: "w"}}}}}} {
 		tb, _ := proto.Marshal(tree)
 		var td *pb.Digest
 		if len(tb) == 0 {
@@ -187,6 +203,7 @@ func TestVerifHandlersNil(t *testing.T) {
 			_, err := s.GetActionResult(ctx, &pb.GetActionResultRequest{ActionDigest: &pb.Digest{Hash: key, SizeBytes: 1}, InlineStdout: true, InlineOutputFiles: []string{"x"}})
 			return err
 		})
+		call("Stats", "after stored-tree:"+name, func() error { f.cache.Stats(); return nil })
 	}
 	gt := f.vPutBlob(t, rng.Bytes(40))
 	arG := &pb.ActionResult{OutputDirectories: []*pb.OutputDirectory{{Path: "d", TreeDigest: gt}}}
